@@ -60,6 +60,7 @@ class Dut:
 
     def traffic(self, op):
         nrf, chip, lp = self.nrf, self.chip, self.lp
+        before = truth(chip)
         self.k += 1
         if op[0] == "peer":
             pipe, n = op[1], op[2]
@@ -90,7 +91,7 @@ class Dut:
                 nrf.load_ack(bytes([0xAC, self.k]), 1)
             except Exception:  # noqa
                 pass
-        return dict(op="traffic", what=list(map(str, op)), pre=truth(chip), post=truth(chip), ret=tag(None))
+        return dict(op="traffic", what=list(map(str, op)), pre=before, post=truth(chip), ret=tag(None))
 
     def access(self, op):
         nrf, chip = self.nrf, self.chip
